@@ -12,80 +12,97 @@ import (
 // hidx.from, exists) run inside goroutines of the server's merge layer that have NO recover: a panic there is a crash
 // of the whole data node process. Oracle-only: every handler is called on a real KVNode with adversarial argument
 // vectors; a panic (caught here by the runner) is a violation of class `panic`.
-//
-//	open <eng>
-//	pop                                     a few keys of every type in table t (so that scans have something to return)
-//	m <hexarg0=command> <hexarg>…           → ok | err:<class> | nohandler
+//   open <eng>
+//   pop                                     a few keys of every type in table t (so that scans have something to return)
+//   m <hexarg0=command> <hexarg>…           → ok | err:<class> | nohandler
 func init() { register(&Proto{Name: "mergeargs", Gen: genMergeArgs, New: newMergeArgs}) }
 
 var mergeCmds = []string{"scan", "revscan", "advscan", "advrevscan", "fullscan", "hidx.from", "exists", "SCAN", "HIDX.FROM"}
+
+// mergeArgPools are the adversarial values the merge-command argument vectors are drawn from.
+type mergeArgPools struct {
+	cursors, types, nums, words, wheres []string
+}
+
+func defaultMergeArgPools() mergeArgPools {
+	return mergeArgPools{
+		cursors: []string{"default:t:", "default:t:a", "default:zz:", "default:t", "default:", "t:", "", ":", "default::", "default:t:\xff", "default:t:a:b"},
+		types:   []string{"kv", "hash", "list", "set", "zset", "KV", "bitmap", "", "x"},
+		nums:    []string{"0", "1", "2", "10", "-1", "-2", "-9223372036854775808", "9223372036854775807", "4294967296", "+3", "1.5", "", "a", "00", "-0"},
+		words:   []string{"count", "match", "COUNT", "MATCH", "where", "limit", "WHERE", "and", "*", "a*", "[", "\\", "?", "**"},
+		wheres: []string{"=1", "\"=1\"", "a=1", "\"a=1\"", "a<=", "<=1", "\"<=1\"", ">=", "\">\"", "<", "a>1 and", "\"a>1 and b<2\"", "and", "\"and\"", "\"a=1 and =2\"",
+			"\"\"", "\"", "a", "\"a\"", " = ", "\" = \"", "\"a<1 and a>0\"", "\"=\"", "=", "\"a==1\"", "\"<\"", "\" \""},
+	}
+}
+
+// genMergeArgVector draws one adversarial argument vector (command name + arguments) for a merge command; shared by
+// protocol mergeargs (node-level handlers) and protocol srvmerge (the same vectors through Server.serverRedis).
+func genMergeArgVector(rng *rand.Rand, p mergeArgPools) (string, []string) {
+	pick := func(xs []string) string { return xs[rng.Intn(len(xs))] }
+	cmd := pick(mergeCmds)
+	var args []string
+	lc := strings.ToLower(cmd)
+	switch {
+	case lc == "hidx.from":
+		// hidx.from table where "cond" [limit offset cnt] [fields…]
+		args = append(args, pick([]string{"default:t", "default:zz", "default:", "t", ""}))
+		for j := rng.Intn(5); j > 0; j-- {
+			switch rng.Intn(4) {
+			case 0:
+				args = append(args, pick(p.words))
+			case 1:
+				args = append(args, pick(p.nums))
+			default:
+				args = append(args, pick(p.wheres))
+			}
+		}
+		if rng.Intn(2) == 0 {
+			args = append([]string{args[0], "where", pick(p.wheres)}, args[1:]...)
+		}
+	case strings.HasPrefix(lc, "adv") || lc == "fullscan":
+		args = append(args, pick(p.cursors), pick(p.types))
+		fallthrough
+	default:
+		if len(args) == 0 {
+			args = append(args, pick(p.cursors))
+		}
+		for j := rng.Intn(5); j > 0; j-- {
+			switch rng.Intn(3) {
+			case 0:
+				args = append(args, pick(p.words))
+			case 1:
+				args = append(args, pick(p.nums))
+			default:
+				args = append(args, "count", pick(p.nums))
+			}
+		}
+	}
+	if rng.Intn(12) == 0 && len(args) > 0 { // drop / duplicate an argument
+		k := rng.Intn(len(args))
+		if rng.Intn(2) == 0 {
+			args = append(args[:k:k], args[k+1:]...)
+		} else {
+			args = append(args, args[k])
+		}
+	}
+	return cmd, args
+}
 
 func genMergeArgs(rng *rand.Rand, tier string, emit func(string)) {
 	sessions, per := 6, 400
 	if tier == "thorough" {
 		sessions, per = 40, 5000
 	}
-	cursors := []string{"default:t:", "default:t:a", "default:zz:", "default:t", "default:", "t:", "", ":", "default::", "default:t:\xff", "default:t:a:b"}
-	types := []string{"kv", "hash", "list", "set", "zset", "KV", "bitmap", "", "x"}
-	nums := []string{"0", "1", "2", "10", "-1", "-2", "-9223372036854775808", "9223372036854775807", "4294967296", "+3", "1.5", "", "a", "00", "-0"}
-	words := []string{"count", "match", "COUNT", "MATCH", "where", "limit", "WHERE", "and", "*", "a*", "[", "\\", "?", "**"}
-	wheres := []string{"=1", "\"=1\"", "a=1", "\"a=1\"", "a<=", "<=1", "\"<=1\"", ">=", "\">\"", "<", "a>1 and", "\"a>1 and b<2\"", "and", "\"and\"", "\"a=1 and =2\"",
-		"\"\"", "\"", "a", "\"a\"", " = ", "\" = \"", "\"a<1 and a>0\"", "\"=\"", "=", "\"a==1\"", "\"<\"", "\" \""}
-	pick := func(xs []string) string { return xs[rng.Intn(len(xs))] }
+	pools := defaultMergeArgPools()
 	for s := 0; s < sessions; s++ {
 		emit("open " + []string{"mem", "pebble"}[rng.Intn(2)])
 		if rng.Intn(3) > 0 {
 			emit("pop")
 		}
 		for i := 0; i < per; i++ {
-			cmd := pick(mergeCmds)
-			var args []string
-			lc := strings.ToLower(cmd)
-			switch {
-			case lc == "hidx.from":
-				// hidx.from table where "cond" [limit offset cnt] [fields…]
-				args = append(args, pick([]string{"default:t", "default:zz", "default:", "t", ""}))
-				for j := rng.Intn(5); j > 0; j-- {
-					switch rng.Intn(4) {
-					case 0:
-						args = append(args, pick(words))
-					case 1:
-						args = append(args, pick(nums))
-					default:
-						args = append(args, pick(wheres))
-					}
-				}
-				if rng.Intn(2) == 0 {
-					args = append([]string{args[0], "where", pick(wheres)}, args[1:]...)
-				}
-			case strings.HasPrefix(lc, "adv") || lc == "fullscan":
-				args = append(args, pick(cursors), pick(types))
-				fallthrough
-			default:
-				if len(args) == 0 {
-					args = append(args, pick(cursors))
-				}
-				for j := rng.Intn(5); j > 0; j-- {
-					switch rng.Intn(3) {
-					case 0:
-						args = append(args, pick(words))
-					case 1:
-						args = append(args, pick(nums))
-					default:
-						args = append(args, "count", pick(nums))
-					}
-				}
-			}
-			if rng.Intn(12) == 0 && len(args) > 0 { // drop / duplicate an argument
-				k := rng.Intn(len(args))
-				if rng.Intn(2) == 0 {
-					args = append(args[:k:k], args[k+1:]...)
-				} else {
-					args = append(args, args[k])
-				}
-			}
+			cmd, args := genMergeArgVector(rng, pools)
 			if len(args) == 0 { // the server's merge layer refuses a merge command without a first argument before dispatching
-				args = append(args, pick(cursors))
+				args = append(args, pools.cursors[0])
 			}
 			line := "m " + hexs([]byte(cmd))
 			for _, a := range args {
